@@ -246,6 +246,9 @@ func FormatValue(v Value) string {
 }
 
 func (in *Interp) evalMulti(e Expr) []Value {
+	if _, ok := e.(App); ok {
+		panic(Invalid{"app call (not interpretable)"})
+	}
 	if c, ok := e.(Call); ok {
 		return in.call(c)
 	}
@@ -383,6 +386,8 @@ func (in *Interp) eval(e Expr) Value {
 			panic(Invalid{"read of a missing file"})
 		}
 		return strings.TrimSuffix(c, "\n")
+	case App:
+		panic(Invalid{"app call (not interpretable)"})
 	case Input:
 		if x.Prompt != nil {
 			in.eval(x.Prompt)
@@ -844,6 +849,9 @@ func (in *Interp) exec2(s Stmt, top bool) ctl {
 		in.status = 1
 		return ctlExit
 	case ExprStmt:
+		if _, ok := x.E.(App); ok {
+			panic(Invalid{"app call (not interpretable)"})
+		}
 		if c, ok := x.E.(Call); ok {
 			in.call(c)
 		} else {
